@@ -9,7 +9,7 @@ package whip
 // /verif/bounded/c34_linkheader_test.go: the induction over the escape automaton is out of the solvers' reach.)
 
 //@ func readQuotedCredential
-//@   property C34
+//@   property C34, C35
 //@   loop 1 invariant 1 <= i && i <= len(v)
 //@   ensures [needs-opening-quote] (len(v) == 0 || v[0] != '"') ==> !result2
 //@   ensures [rest-is-a-suffix-after-a-quote] result2 ==> exists(k, 1, len(v), v[k] == '"' && result1 == v[k+1:])
